@@ -117,7 +117,7 @@ static int build_mesh(int w0, MESH *m) {
   m->metric = (REF_DBL *)malloc(sizeof(REF_DBL) * 6 * (size_t)(nn + 8));
   for (i = 0; i < nn; i++) {
     REF_INT node;
-    if (REF_SUCCESS != ref_node_add(ref_node, i, &node) || node != i) exit(5);
+    if (REF_SUCCESS != ref_node_add(ref_node, (REF_GLOB)(3 * i + 5), &node) || node != i) exit(5);
     for (c = 0; c < 3; c++) ref_node_xyz(ref_node, c, node) = h_f(h_w[w + 3 * i + c]);
     for (c = 3; c < REF_NODE_REAL_PER; c++) ref_node_real(ref_node, c, node) = 0.0;
     for (c = 0; c < 6; c++) m->metric[6 * i + c] = h_f(h_w[w + 3 * nn + 6 * i + c]);
